@@ -1,0 +1,55 @@
+//go:build verif
+
+// Machine-checked contracts for package cdb (comment-only; read by /verif's govc).
+
+package cdb
+
+//@ spec le32(d slice, i int) int = d[i] + 256*d[i+1] + 65536*d[i+2] + 16777216*d[i+3]
+
+//@ func putNum
+//@ requires len(buf) >= 4
+//@ modifies buf[0:4]
+//@ ensures le32(buf, 0) == x
+
+//@ func writeNums
+//@ flag skip unreachable-panic
+//@ requires len(buf) >= 8
+//@ modifies buf[0:8]
+//@ ensures le32(buf, 0) == x && le32(buf, 4) == y
+
+// Record layout and table bookkeeping of one Put (C16): the record occupies 8+klen+dlen bytes at the old
+// position and is registered, last in put order, in table h%256 with its hash and that position.
+//@ func writer.Put
+//@ flag skip unreachable-panic,frame
+//@ ghostret hh int = h
+//@ requires len(w.buf) >= 8 && w.wb != nil && w.hash != nil && w.hw != nil && w.htables != nil
+//@ requires w.pos + 8 + len(key) + len(value) < 4294967296
+//@ modifies w
+//@ modifies w.buf[0:8]
+//@ modifies w.htables
+//@ ensures[pos] err == nil ==> w.pos == old(w.pos) + 8 + len(key) + len(value)
+//@ ensures[failpos] err != nil ==> w.pos == old(w.pos)
+//@ ensures[slotlen] err == nil ==> len(w.htables[hh % 256]) == old(len(w.htables[hh % 256])) + 1
+//@ ensures[slot] err == nil ==> w.htables[hh % 256][len(w.htables[hh % 256]) - 1].h == hh && w.htables[hh % 256][len(w.htables[hh % 256]) - 1].pos == old(w.pos)
+
+// Probe discipline of a lookup (C16): end-of-data is reported only at an empty cell or after all cells of
+// the table were probed; a hit reports a record whose stored hash and key length equal the searched ones.
+//@ func Cdb.find
+//@ flag skip bounds
+//@ ghostret lastpos int = pos
+//@ requires context != nil && (context.loop <= context.hslots || context.loop == 0)
+//@ modifies context
+//@ ensures[eof] err == io.EOF ==> context.hslots == 0 || context.loop == context.hslots || lastpos == 0
+//@ ensures[errs] err == nil || err == io.EOF
+//@ ensures[hit] err == nil ==> context.loop >= 1 && context.loop <= context.hslots && context.dpos == (lastpos + 8 + len(key)) % 4294967296
+//@ ensures[progress] err == nil ==> context.loop > old(context.loop) || old(context.loop) == 0
+//@ loop 0 invariant context.loop <= context.hslots && context.loop >= old(context.loop)
+
+//@ func Cdb.readNums
+//@ pure
+//@ flag skip bounds
+//@ ensures result0 >= 0 && result1 >= 0
+
+//@ func Cdb.match
+//@ pure
+//@ flag skip bounds
